@@ -442,7 +442,20 @@ func ruleC08R3(r *Run) {
 		}
 	}
 	r.Floor("stores to skipped in runAction's recover", n, 1)
-	// normal path returns (false, false) after failOnError
+	// normal path returns (false, false) after failOnError: an action that signalled a non-fatal failure and returned
+	// normally must stop Repeat there, before the invariant is run once more on the falsified state
+	for _, cs := range p.calls(ra) {
+		if !strings.HasPrefix(cs.Key, "dyn:") || cs.isDefer() || cs.Instr.Parent() != ra {
+			continue
+		}
+		tPar := ssa.Value(ra.Params[0])
+		exit := escapesWithout(cs.Instr, func(in ssa.Instruction) bool {
+			c, ok := in.(*ssa.Call)
+			return ok && p.calleeKey(c.Common()) == "(*T).failOnError" && p.resolve(c.Common().Args[0]) == tPar
+		}, false)
+		r.Check("runAction#action-then-consult", cs.Instr.Pos(), exit == nil, "after the action returns the failure flag is consulted before runAction reports it as completed",
+			"runAction can return after the action without consulting the failure flag: an action that signals a non-fatal failure (Errorf/Fail) and returns normally counts as completed, and Repeat runs the invariant once more on the falsified state before it stops")
+	}
 	for _, ret := range returnsOf(ra) {
 		a, okA := constBool(p.resolve(p.res(ret, 0)))
 		b, okB := constBool(p.resolve(p.res(ret, 1)))
